@@ -1,7 +1,7 @@
 // Engine D harness for C03 (simple processors): the UNMODIFIED SimpleSpanProcessor / SimpleLogRecordProcessor (and the
 // SpinLockMutex they lock around exporter_->Export) under the scheduler shim.  The trace has exactly the format of the
 // C11 spin-lock harness, with the exporter call as the critical section, so the same Lean model steps it.
-//   ssp|slp <n0> <n1> ... ; t<i> ; ...     n_i = number of OnEnd/OnEmit calls of thread i
+//   ssp|slp <n0> <n1> ... [S] ; t<i> ; ...     n_i = number of OnEnd/OnEmit calls of thread i; S = after Shutdown()
 #include "common.h"
 
 #define private public
@@ -90,6 +90,15 @@ static std::string handle(const std::vector<std::string> &t)
   auto ops = vh::split_ops(t, 1);
   if (ops.empty() || ops[0].empty() || ops[0].size() > 6) return "bad-op";
   std::vector<unsigned long> counts;
+  // a trailing `S`: the processor has been shut down before the threads start (OnEnd / OnEmit after Shutdown still go
+  // through the lock and hand the record to the exporter, which may turn it away - Export is never re-entered)
+  bool pre_shutdown = false;
+  if (ops[0].back() == "S")
+  {
+    pre_shutdown = true;
+    ops[0].pop_back();
+    if (ops[0].empty()) return "bad-op";
+  }
   for (auto &c : ops[0])
   {
     char *e = nullptr;
@@ -111,6 +120,7 @@ static std::string handle(const std::vector<std::string> &t)
   XState xs;
   auto *proc = new Processor(std::unique_ptr<Exporter>(new HExporter(&xs)));
   detsched::name_object(&proc->lock_, "flag");
+  if (pre_shutdown) proc->Shutdown();
   for (size_t p = 0; p < counts.size(); p++)
   {
     detsched::spawn([&, p] {
